@@ -281,22 +281,55 @@ def isStr : Expr → Bool
   | .str .. => true
   | _ => false
 
-/-- `optimizeExpr` -/
-def optimizeExpr : Expr → Scan
+/-- `scanTp == EMPTY` -/
+def Scan.isEmpty : Scan → Bool
+  | .empty => true
+  | _ => false
+
+/-- the double loop of `optimizeAndExpr`: do two of the conjuncts' scan types (an earlier and a
+    later one) intersect to EMPTY -/
+def emptyPair : List Scan → Bool
+  | [] => false
+  | s :: rest => rest.any (fun t => (andScan s t).isEmpty) || emptyPair rest
+
+/-- what the optimizer computes of a tree on its way along a chain of `&` / `and`:
+    `whole` = `optimizeExpr`; `leaves` = `conjunctScanTypes` (the scan types of the conjuncts —
+    the operands of the whole chain, however nested — left to right); `tree` =
+    `intersectConjuncts` (the conjuncts combined along the tree, as before the change).
+    For a node that is not `&`/`and` the three coincide (`single`). -/
+structure Conj where
+  whole : Scan
+  tree : Scan
+  leaves : List Scan
+
+def Conj.single (s : Scan) : Conj := ⟨s, s, [s]⟩
+
+/-- `optimizeExpr`, together with `conjunctScanTypes` and `intersectConjuncts`.
+    CHANGED (`optimizeAndExpr`): a conjunction two of whose conjuncts cannot hold together
+    (their scan types intersect to EMPTY) is EMPTY wherever the two are nested; it used to
+    depend on the pairwise combination along the tree, where PREFIX ∩ RANGE may keep only the
+    range and so hide an incompatible prefix (`key ^= 'c' & (key ^= 'b' & key >= 'ba')`). -/
+def infer : Expr → Conj
   | .binop _ op l r =>
     match op with
-    | .and | .kwAnd => andScan (optimizeExpr l) (optimizeExpr r)
-    | .or | .kwOr => orScan (optimizeExpr l) (optimizeExpr r)
-    | .prefixMatch => optimizePrefixMatchExpr l r
-    | .eq => optimizeEqualExpr l r
+    | .and | .kwAnd =>
+      let leaves := (infer l).leaves ++ (infer r).leaves
+      let tree := andScan (infer l).tree (infer r).tree
+      ⟨if emptyPair leaves then .empty else tree, tree, leaves⟩
+    | .or | .kwOr => .single (orScan (infer l).whole (infer r).whole)
+    | .prefixMatch => .single (optimizePrefixMatchExpr l r)
+    | .eq => .single (optimizeEqualExpr l r)
     -- CHANGED: with the string literal on the left the comparison is mirrored
-    | .gt | .gte => if isStr l then optimizeLtLteExpr op l r else optimizeGtGteExpr l r
-    | .lt | .lte => if isStr l then optimizeGtGteExpr l r else optimizeLtLteExpr op l r
-    | .in_ => optimizeInExpr l r
-    | .between => optimizeBetweenExpr l r
-    | _ => .full
-  | .bool _ _ b => if b then .full else .empty
-  | _ => .full
+    | .gt | .gte => .single (if isStr l then optimizeLtLteExpr op l r else optimizeGtGteExpr l r)
+    | .lt | .lte => .single (if isStr l then optimizeGtGteExpr l r else optimizeLtLteExpr op l r)
+    | .in_ => .single (optimizeInExpr l r)
+    | .between => .single (optimizeBetweenExpr l r)
+    | _ => .single .full
+  | .bool _ _ b => .single (if b then .full else .empty)
+  | _ => .single .full
+
+/-- `optimizeExpr` -/
+def optimizeExpr (e : Expr) : Scan := (infer e).whole
 
 def showOB : OB → String
   | none => "nil"
